@@ -328,6 +328,77 @@ def check_templates():
     need(got == MATCH_TEMPLATE, 'match: body differs from the modelled text')
 
 
+# ------------------------------------------------------------------ no hidden state
+
+FUNCS = ('make_grammar', 'match', '_all_in', '_range_in')
+ALLOWED_GLOBALS = {'pyparsing', 'ast', 'operator', 'op_methods', 'make_grammar', '_all_in', '_range_in'}
+ALLOWED_BUILTINS = {'float', 'len', 'isinstance', 'list', 'all', 'any', 'TypeError'}
+ALLOWED_IMPORTS = {'ast', 'operator', 'pyparsing'}
+
+
+def _local_names(fn):
+    a = fn.args
+    names = {x.arg for x in list(a.posonlyargs) + list(a.args) + list(a.kwonlyargs)}
+    names |= {x.arg for x in (a.vararg, a.kwarg) if x is not None}
+    body = fn.body if isinstance(fn.body, list) else [fn.body]
+    for st in body:
+        for n in ast.walk(st):
+            if isinstance(n, ast.Name) and isinstance(n.ctx, ast.Store):
+                names.add(n.id)
+            elif isinstance(n, ast.arg):
+                names.add(n.arg)
+            elif isinstance(n, ast.ExceptHandler) and n.name:
+                names.add(n.name)
+    return names
+
+
+def check_no_state():
+    """match / make_grammar / _all_in / _range_in and the op_methods lambdas are functions of their arguments:
+    they read no module-level or thread-local name beyond the modules, op_methods and each other, bind only plain
+    local names (no `global`, no attribute / subscript stores, no imports, no nested definitions), and the module
+    itself consists of the imports, the four definitions and the op_methods table and nothing else (no module-level
+    call that could configure pyparsing, no cache object)."""
+    tree = repo_ast(SRC)
+    seen = []
+    for st in tree.body:
+        if isinstance(st, ast.Expr) and isinstance(st.value, ast.Constant) and isinstance(st.value.value, str):
+            continue
+        if isinstance(st, ast.Import):
+            need(all(a.asname is None and a.name in ALLOWED_IMPORTS for a in st.names),
+                 'module level: unexpected import %s' % src(st))
+            continue
+        if isinstance(st, ast.FunctionDef) and st.name in FUNCS:
+            seen.append(st); continue
+        if (isinstance(st, ast.Assign) and len(st.targets) == 1 and isinstance(st.targets[0], ast.Name)
+                and st.targets[0].id == 'op_methods' and isinstance(st.value, ast.Dict)):
+            seen.append(st); continue
+        raise GenError('module level: statement outside the modelled module (line %d): %s' % (st.lineno, src(st)[:60]))
+    units = [st for st in seen if isinstance(st, ast.FunctionDef)]
+    for st in seen:
+        if isinstance(st, ast.Assign):
+            units += [v for v in st.value.values if isinstance(v, ast.Lambda)]
+    for fn in units:
+        what = getattr(fn, 'name', 'op_methods lambda (line %d)' % fn.lineno)
+        local = _local_names(fn)
+        body = fn.body if isinstance(fn.body, list) else [fn.body]
+        for st in body:
+            for n in ast.walk(st):
+                if isinstance(n, (ast.Global, ast.Nonlocal)):
+                    raise GenError('%s: global / nonlocal declaration' % what)
+                if isinstance(n, (ast.Import, ast.ImportFrom, ast.FunctionDef, ast.AsyncFunctionDef, ast.ClassDef, ast.NamedExpr)):
+                    raise GenError('%s: %s inside the function' % (what, type(n).__name__))
+                if isinstance(n, (ast.Attribute, ast.Subscript)) and isinstance(n.ctx, (ast.Store, ast.Del)):
+                    raise GenError('%s: stores into %s (state outside the call)' % (what, src(n)[:50]))
+                if isinstance(n, ast.Name) and isinstance(n.ctx, ast.Del):
+                    raise GenError('%s: del %s' % (what, n.id))
+                if isinstance(n, ast.Name) and isinstance(n.ctx, ast.Load) and n.id not in local:
+                    if n.id not in ALLOWED_GLOBALS and n.id not in ALLOWED_BUILTINS:
+                        raise GenError('%s: reads the non-local name %s' % (what, n.id))
+        # a local must not shadow a module / table name the model resolves globally
+        clash = local & (ALLOWED_GLOBALS | ALLOWED_BUILTINS)
+        need(not clash, '%s: local name shadows %s' % (what, sorted(clash)))
+
+
 # ------------------------------------------------------------------ emit
 
 def coq_strs(l):
@@ -336,6 +407,7 @@ def coq_strs(l):
 
 def generate():
     failclosed.check_all(FAILCLOSED['generate'])
+    check_no_state()
     repo_import('oslo_utils.specs_matcher')          # the module must come from the checked repository
     import pyparsing
     g = grammar()
